@@ -1,3 +1,249 @@
+(* C19 — finite_difference is a faithful and non-destructive derivative check.
+   Statements only; every proof is `exact <lemma>`; Print Assumptions under each; examples at the end.
+   Model: Model/FD.v.  Vocabulary (Proofs/FDP.v):
+     collect imag x0 c sf iin k outps f0 df dxan s   the tuples handed to test_fn for one perturbed state s
+     outinfo = (o_ref, o_f0, o_w, o_dx)              output of interest: its reference, its unperturbed value, the seed
+                                                     used for it and the input sensitivities recorded for it
+     mk_report imag x0 c iin k o g                   the tuple (x0, dx, Re/Im entry k of the recorded sensitivity of input iin,
+                                                     Re/Im g)
+     affine_re / affine_im / quadratic_re            the response is affine (holomorphic) / of degree 2 along the perturbed entry
+     resp_pres blk j                                 the sub-network does not write the state of Signal j
+     direct_sig blk j                                Signal j is (directly) an input or output of a module of blk
+     clean o                                         o is None or an all-zero value *)
 From Coq Require Import ZArith QArith Qcanon List Bool.
-From Pymoto Require Import Model.FD Proofs.FDP.
+From Pymoto Require Import Base.Cmp Model.FD Proofs.FDP.
 Import ListNotations.
+Local Open Scope Qc_scope.
+
+(* ------------------------------------------------------------------ 1. the report list *)
+(* for a perturbed state: exactly one tuple per output of interest, in order, carrying the original entry x0, dx, the
+   real (imaginary) part of the stored backpropagated sensitivity entry and the real (imaginary) part of
+   sum( ((f(x+delta) - f(x)) / delta) * seed ) with delta = dx*sf (i*dx*sf) *)
+Theorem C19_reports : forall imag x0 c sf iin k s (os : list outinfo) (fps : list val),
+  Forall2 (fun o fp => get_state (o_ref o) s = Some fp) os fps ->
+  collect imag x0 c sf iin k (map o_ref os) (map (fun o => Some (o_f0 o)) os) (map (fun o => Some (o_w o)) os)
+          (map o_dx os) s
+  = map (fun ofp =>
+           let d := map2 ksub (v_dat (snd ofp)) (v_dat (o_f0 (fst ofp))) in
+           let dfv := if imag then map (fun a => kdivi a (c_dx c * sf)) d else map (fun a => kdivr a (c_dx c * sf)) d in
+           mk_report imag x0 c iin k (fst ofp) (dot dfv (v_dat (o_w (fst ofp)))))
+        (combine os fps).
+Proof. exact collect_spec. Qed.
+Print Assumptions C19_reports.
+
+(* which entries are perturbed: in np.nditer order; zero entries of ARRAYS are skipped when keep_zero_structure is set
+   (python / numpy scalar states are always perturbed); per entry a real pass, then for complex dtype an imaginary
+   pass, each: perturb -> response -> tuples -> restore; the scale factor is |x0| for relative_dx and x0 <> 0 *)
+Theorem C19_entry_skipped : forall c blk si iin outps f0 df dxan x k ks s,
+  kzero (nth k (v_dat x) k0) && c_keepzero c && is_arr x = true ->
+  perturb_entries c blk si iin outps f0 df dxan x (k :: ks) s = perturb_entries c blk si iin outps f0 df dxan x ks s.
+Proof. exact perturb_entries_skip. Qed.
+Print Assumptions C19_entry_skipped.
+
+Theorem C19_entry_perturbed : forall c blk si iin outps f0 df dxan x k ks s,
+  kzero (nth k (v_dat x) k0) && c_keepzero c && is_arr x = false ->
+  let x0 := nth k (v_dat x) k0 in
+  let sf := if c_rel c && negb (Qc_eqb (kabs x0) 0) then kabs x0 else 1 in
+  let s2 := n_response blk (set_state si (with_entry x k (kaddr x0 (c_dx c * sf))) s) in
+  let s3 := set_state si (with_entry x k x0) s2 in
+  let s5 := n_response blk (set_state si (with_entry x k (kaddi x0 (c_dx c * sf))) s3) in
+  let s6 := if v_cx x then set_state si (with_entry x k x0) s5 else s3 in
+  snd (perturb_entries c blk si iin outps f0 df dxan x (k :: ks) s) =
+    collect false x0 c sf iin k outps f0 df dxan s2 ++
+    (if v_cx x then collect true x0 c sf iin k outps f0 df dxan s5 else []) ++
+    snd (perturb_entries c blk si iin outps f0 df dxan x ks s6) /\
+  fst (perturb_entries c blk si iin outps f0 df dxan x (k :: ks) s) =
+    fst (perturb_entries c blk si iin outps f0 df dxan x ks s6).
+Proof. exact perturb_entries_step. Qed.
+Print Assumptions C19_entry_perturbed.
+
+(* what the analytical pass records for an output: its value, the input sensitivities obtained by backpropagating
+   the seed, and the seed itself (unless the output keeps its allocation and the quirk is present) *)
+Theorem C19_analytical_pass : forall c blk inps so outps iout rand s output,
+  get_state so s = Some output ->
+  let df := fst (make_seed c iout output rand) in
+  let s2 := n_sensitivity blk (set_sens so (Some df) s) in
+  hd None (a_f0 (analytical c blk inps (so :: outps) iout rand s)) = Some output /\
+  hd [] (a_dx (analytical c blk inps (so :: outps) iout rand s)) = map (fun si => get_sens si s2) inps /\
+  (q_seed_alias c = false \/ keep (getsig s2 (s_root so)) = false ->
+   hd None (a_df (analytical c blk inps (so :: outps) iout rand s)) = Some df).
+Proof. exact analytical_head. Qed.
+Print Assumptions C19_analytical_pass.
+
+(* ------------------------------------------------------------------ 2. exactness on (affine-)linear responses, any dx <> 0 *)
+Theorem C19_linear_exact : forall x0 c sf iin k s (os : list outinfo) (Js : list (list K)),
+  c_dx c * sf <> 0 ->
+  Forall2 (affine_re (c_dx c * sf) s) os Js ->
+  collect false x0 c sf iin k (map o_ref os) (map (fun o => Some (o_f0 o)) os) (map (fun o => Some (o_w o)) os)
+          (map o_dx os) s
+  = map (fun oj => mk_report false x0 c iin k (fst oj) (dot (snd oj) (v_dat (o_w (fst oj))))) (combine os Js).
+Proof. exact collect_linear_exact. Qed.
+Print Assumptions C19_linear_exact.
+
+Theorem C19_linear_exact_imaginary : forall x0 c sf iin k s (os : list outinfo) (Js : list (list K)),
+  c_dx c * sf <> 0 ->
+  Forall2 (affine_im (c_dx c * sf) s) os Js ->
+  collect true x0 c sf iin k (map o_ref os) (map (fun o => Some (o_f0 o)) os) (map (fun o => Some (o_w o)) os)
+          (map o_dx os) s
+  = map (fun oj => mk_report true x0 c iin k (fst oj) (dot (snd oj) (v_dat (o_w (fst oj))))) (combine os Js).
+Proof. exact collect_linear_exact_imag. Qed.
+Print Assumptions C19_linear_exact_imaginary.
+
+(* hence: a tuple matches exactly when the claimed sensitivity entry equals the true one (detects / accepts) *)
+Theorem C19_detects_and_accepts : forall imag x0 c iin k o (truth : K),
+  let r := mk_report imag x0 c iin k o truth in
+  r_an r = r_fd r <->
+  (if imag then kim (an_entry (nth iin (o_dx o) None) k) = kim truth
+   else kre (an_entry (nth iin (o_dx o) None) k) = kre truth).
+Proof. exact report_match_iff. Qed.
+Print Assumptions C19_detects_and_accepts.
+
+(* degree-2 responses: numerical value = exact derivative + dx*sf * (second-order term): the O(dx) clause, exactly *)
+Theorem C19_quadratic_error : forall x0 c sf iin k s (os : list outinfo) (JHs : list (list K * list K)),
+  c_dx c * sf <> 0 ->
+  Forall2 (fun o jh => quadratic_re (c_dx c * sf) s o (fst jh) (snd jh)) os JHs ->
+  collect false x0 c sf iin k (map o_ref os) (map (fun o => Some (o_f0 o)) os) (map (fun o => Some (o_w o)) os)
+          (map o_dx os) s
+  = map (fun oj =>
+           let w := v_dat (o_w (fst oj)) in
+           mk_report false x0 c iin k (fst oj)
+                     (kadd (dot (fst (snd oj)) w) (kscale (c_dx c * sf) (dot (snd (snd oj)) w))))
+        (combine os JHs).
+Proof. exact collect_quadratic_error. Qed.
+Print Assumptions C19_quadratic_error.
+
+(* ------------------------------------------------------------------ 3. non-destructive *)
+(* after the call every Signal the sub-network does not write (in particular every input) holds exactly the state it
+   held before — also through slices (basic and integer-array, repeat-free) *)
+Theorem C19_restores_states : forall c blk inps outps s res j,
+  finite_difference c false blk inps outps s = inr res ->
+  Forall ref_wf inps -> Forall (fun si => (s_root si < length s)%nat) inps -> resp_pres blk j ->
+  st (getsig (f_store res) j) = st (getsig s j).
+Proof. exact fd_restores. Qed.
+Print Assumptions C19_restores_states.
+
+Theorem C19_inputs_are_not_written : forall blk j,
+  Forall (fun m => Forall (fun r => s_root r <> j) (m_out m)) blk -> resp_pres blk j.
+Proof. exact resp_pres_not_output. Qed.
+Print Assumptions C19_inputs_are_not_written.
+
+(* the invariant behind it: one perturb / evaluate / restore window leaves the root exactly as it was *)
+Theorem C19_perturbation_window : forall blk si s b k a,
+  ref_wf si -> (s_root si < length s)%nat -> st (getsig s (s_root si)) = Some b -> resp_pres blk (s_root si) ->
+  let x := xval si b in
+  let s2 := n_response blk (set_state si (with_entry x k a) s) in
+  let s3 := set_state si (with_entry x k (nth k (v_dat x) k0)) s2 in
+  st (getsig s3 (s_root si)) = Some b /\ length s3 = length s /\
+  (forall j, j <> s_root si -> st (getsig s3 j) = st (getsig s2 j)).
+Proof. exact entry_roundtrip. Qed.
+Print Assumptions C19_perturbation_window.
+
+(* no sensitivity is left set on any Signal of the sub-network (None, or zeros where an allocation is kept) *)
+Theorem C19_no_sensitivity_left : forall c blk inps outps s res j,
+  finite_difference c false blk inps outps s = inr res -> direct_sig blk j ->
+  clean (se (getsig (f_store res) j)).
+Proof. exact fd_leaves_clean. Qed.
+Print Assumptions C19_no_sensitivity_left.
+
+(* the perturbation phase does not touch any sensitivity at all *)
+Theorem C19_perturbation_keeps_sensitivities : forall c blk outps f0 df dxan inps iin s,
+  sens_same s (fst (perturb_inputs c blk inps iin outps f0 df dxan s)).
+Proof. exact perturb_inputs_sens_same. Qed.
+Print Assumptions C19_perturbation_keeps_sensitivities.
+
+(* ------------------------------------------------------------------ 4. sub-network selection *)
+Theorem C19_first_module : forall inps n i0 i1, find_first inps n i0 = Some i1 ->
+  (i0 <= i1 < i0 + length n)%nat /\ overlap inps (m_in (nth (i1 - i0) n mod0)) = true /\
+  forall j, (j < i1 - i0)%nat -> overlap inps (m_in (nth j n mod0)) = false.
+Proof. exact find_first_spec. Qed.
+Print Assumptions C19_first_module.
+
+Theorem C19_last_module : forall outps n i0 acc i2, find_last outps n i0 acc = Some i2 ->
+  (acc = Some i2 /\ forall j, (j < length n)%nat -> overlap outps (m_out (nth j n mod0)) = false) \/
+  ((i0 <= i2 < i0 + length n)%nat /\ overlap outps (m_out (nth (i2 - i0) n mod0)) = true /\
+   forall j, (i2 - i0 < j < length n)%nat -> overlap outps (m_out (nth j n mod0)) = false).
+Proof. exact find_last_spec. Qed.
+Print Assumptions C19_last_module.
+
+(* the modules before the first user of an input are evaluated exactly once; the rest of the routine is the routine
+   on the modules i_first .. i_last *)
+Theorem C19_subnetwork : forall c mods inps outps s i1 i2,
+  find_first inps mods 0 = Some i1 -> find_last outps mods 0 None = Some i2 ->
+  finite_difference c true mods inps outps s =
+  finite_difference c false (firstn (S i2 - i1) (skipn i1 mods)) inps outps (n_response (firstn i1 mods) s).
+Proof. exact fd_network_selection. Qed.
+Print Assumptions C19_subnetwork.
+
+Theorem C19_subnetwork_errors : forall c mods inps outps s,
+  (find_first inps mods 0 = None -> finite_difference c true mods inps outps s = inl ENoInput) /\
+  (forall i1, find_first inps mods 0 = Some i1 -> find_last outps mods 0 None = None ->
+              finite_difference c true mods inps outps s = inl ENoOutput).
+Proof. exact fd_network_errors. Qed.
+Print Assumptions C19_subnetwork_errors.
+
+(* ------------------------------------------------------------------ examples and the refuted clause *)
+Local Open Scope Q_scope.
+Definition r (a : Q) : K := (Q2Qc a, Q2Qc 0).
+Definition V (d : list K) (k : vkind) (cx : bool) : val := {| v_dat := d; v_kind := k; v_cx := cx |}.
+Definition R0 (i : nat) : sref := {| s_root := i; s_slice := None |}.
+Definition rep_q (x : report) : list Q :=
+  [this (fst (r_x0 x)); this (snd (r_x0 x)); this (r_dx x); this (r_an x); this (r_fd x)].
+(* y = [[2, 1], [0, 3]] x  with the correct adjoint *)
+Definition ex_spec : polyspec :=
+  {| p_c := [[r 0; r 0]]; p_A := [[ [[r 2; r 1]; [r 0; r 3]] ]]; p_Q := [[ [[r 0; r 0]; [r 0; r 0]] ]];
+     p_B := [[ [[r 2; r 1]; [r 0; r 3]] ]]; p_Qb := [[ [[r 0; r 0]; [r 0; r 0]] ]];
+     p_okind := [KArr [2%Z]]; p_cx := false |}.
+Definition ex_mod : module := poly_module [R0 0] [R0 1] ex_spec.
+Definition ex_cfg (quirk : bool) : fdcfg :=
+  {| c_dx := Q2Qc (1 # 4); c_rel := false; c_keepzero := true; c_random := false; c_usedf := None; c_rand := [];
+     c_order := [[0; 1]%nat]; q_seed_alias := quirk |}.
+Definition ex_store (keep_out : bool) : store :=
+  [ {| st := Some (V [r 1; r 2] (KArr [2%Z]) false); se := None; keep := false |};
+    {| st := None; se := (if keep_out then Some (V [r 0; r 0] (KArr [2%Z]) false) else None); keep := keep_out |} ].
+Definition reports_of (x : fderr + fdresult) : list (list Q) :=
+  match x with inr y => map rep_q (f_reports y) | inl _ => [] end.
+
+(* the routine reports analytical = numerical = (column sums of the matrix: 2, 4) and restores the input *)
+Example C19_ex_correct_module :
+  Qll_eqb (reports_of (finite_difference (ex_cfg true) false [ex_mod] [R0 0] [R0 1] (ex_store false)))
+          [[1; 0; 1 # 4; 2; 2]; [2; 0; 1 # 4; 4; 4]] = true.
+Proof. vm_compute. reflexivity. Qed.
+
+(* KNOWN FINDING (NEW_C19_seed_zeroed): the full clause "the numerical value is the seed-weighted difference quotient
+   of the seed the module was given" is FALSE of the faithful model when the output Signal keeps its allocation:
+   reset() zeroes the seed object in place and every numerical value becomes 0 although the module is correct *)
+Theorem C19_faithful_numerical_value_refuted :
+  exists c blk inps outps s,
+    Qll_eqb (reports_of (finite_difference c false blk inps outps s))
+            [[1; 0; 1 # 4; 2; 0]; [2; 0; 1 # 4; 4; 0]] = true.
+Proof.
+  exists (ex_cfg true), [ex_mod], [R0 0], [R0 1], (ex_store true). vm_compute. reflexivity.
+Qed.
+Print Assumptions C19_faithful_numerical_value_refuted.
+
+(* ... and what holds instead (C19_analytical_pass): the seed survives when no allocation is kept or the quirk is absent *)
+Example C19_ex_without_quirk :
+  Qll_eqb (reports_of (finite_difference (ex_cfg false) false [ex_mod] [R0 0] [R0 1] (ex_store true)))
+          [[1; 0; 1 # 4; 2; 2]; [2; 0; 1 # 4; 4; 4]] = true.
+Proof. vm_compute. reflexivity. Qed.
+
+(* non-vacuity of the hypotheses of C19_linear_exact / C19_restores_states / C19_no_sensitivity_left on this instance *)
+Example C19_ex_affine_hypothesis :
+  let s1 := n_response [ex_mod] (ex_store false) in
+  let o := {| o_ref := R0 1; o_f0 := V [r 4; r 6] (KArr [2%Z]) false; o_w := V [r 1; r 1] (KArr [2%Z]) false; o_dx := [] |} in
+  let sp := n_response [ex_mod] (set_state (R0 0) (V [r (5 # 4); r 2] (KArr [2%Z]) false) s1) in
+  Forall2 (affine_re (Q2Qc (1 # 4)) sp) [o] [[r 2; r 0]].
+Proof.
+  cbn zeta. constructor; [|constructor]. eexists. split; [reflexivity|]. split; [reflexivity|].
+  apply kl_eqb_sound. vm_compute. reflexivity.
+Qed.
+
+Example C19_ex_frame_hypotheses :
+  resp_pres [ex_mod] 0 /\ direct_sig [ex_mod] 0 /\ direct_sig [ex_mod] 1 /\ ref_wf (R0 0).
+Proof.
+  split; [|split; [|split]].
+  - apply resp_pres_not_output. repeat constructor. cbn. discriminate.
+  - exists ex_mod, (R0 0). cbn. auto.
+  - exists ex_mod, (R0 1). cbn. auto.
+  - exact I.
+Qed.
